@@ -58,6 +58,21 @@ void PG::mutate_ops(int n, const Pool& pool) {
 	}
 }
 
+// "for all automata" includes automata that operations returned: a handle that is the result of a union / intersection with a
+// relative, of a trimming, a renumbering or a reduction of `a` (such results share storage with their operands, carry the
+// default alphabet, have unusual numberings, unreachable or merged states)
+int PG::derived(int a, const TA& A, const Pool& pool) {
+	switch (r.below(7)) {
+		case 0: { int b = load(derive_ta(r, pool, A, int(r.below(6))), 0); return push(mk(client, "et_union", {a, b, long(r.below(3))}), 0); }
+		case 1: { int b = load(derive_ta(r, pool, A, 1 + int(r.below(3))), 0); return push(mk(client, r.chance(1, 2) ? "et_isect" : "et_isect_bu", {a, b, long(r.below(2))}), 0); }
+		case 2: return push(mk(client, "et_unreach", {a, long(r.below(2))}), 0);
+		case 3: return push(mk(client, "et_useless", {a, long(r.below(2))}), 0);
+		case 4: return push(mk(client, "et_reindex", {a, long(r.below(5)), long(r.below(100000)), 0}), 0);
+		case 5: return push(mk(client, "et_reduce", {a}), 0);
+		default: return push(mk(client, "et_witness", {a}), 0);
+	}
+}
+
 // a client whose only job is unrelated activity in the same process
 std::vector<Step> foreign_program(Rng& r, int client, const Pool& pool, int len) {
 	PG g(r, client); TAOpts o; o.max_states = 4;
@@ -249,6 +264,7 @@ static Plan plan_C03(Rng& r, const std::string&) {
 			if (r.chance(1, 6)) { o.flavor = 6; if (o.max_states < 4) o.max_states = r.range(4, 8); }
 			TA A = gen_ta(r, pool, o);
 			int a = g.load(A, 0);
+			if (r.chance(1, 5) && A.states().size() <= 8) a = g.derived(a, A, pool);      // the questions are asked of a RESULT
 			if (r.chance(1, 3)) g.push(mk(c, "et_copy", {a}), 0);
 			if (r.chance(1, 5) && A.states().size() <= 8) g.push(cli_step(r, c, 0, 0, mdl::to_lit(A), ""));      // vata [-p|-s] load
 			int k = r.range(1, 3);
@@ -330,6 +346,7 @@ static Plan plan_C05(Rng& r, const std::string&) {
 			int a = g.load(A, 0);
 			if (r.chance(1, 3)) g.push(mk(c, "et_copy", {a}), 0);
 			g.push(mk(c, "et_reduce", {a}), 0);
+			if (r.chance(1, 5) && A.states().size() <= 8) { int x = g.derived(a, A, pool); g.push(mk(c, "et_reduce", {x}), 0); }      // Reduce of a RESULT
 			if (r.chance(1, 6) && A.states().size() <= 8) g.push(cli_step(r, c, 0, 6, mdl::to_lit(A), ""));      // vata red
 			if (r.chance(1, 3)) {
 				// the same OBJECT reduced again after it got another value: a near relative of A (same states, one or two rules
@@ -485,6 +502,15 @@ static Plan plan_C14(Rng& r, const std::string&) {
 						break; }
 				}
 			}
+			if (r.chance(1, 5) && o.max_states <= 8) {
+				// renaming a RESULT
+				TAOpts o4 = o; TA A4 = gen_ta(r, pool, o4); int a4 = g.load(A4, 0); int x = g.derived(a4, A4, pool);
+				switch (r.below(3)) {
+					case 0: g.push(mk(c, "et_reindex", {x, long(r.below(5)), long(r.below(100000)), long(r.below(2))}), 0); break;
+					case 1: g.push(mk(c, "et_collapse", {x, long(r.below(100000)), long(r.below(4))}), 0); break;
+					default: g.push(mk(c, "et_transl_syms", {x, long(r.below(100000)), long(r.below(4))}), 0); break;
+				}
+			}
 			if (r.chance(1, 5)) {
 				g.push(mk(c, "et_twist", {a, long(r.below(100000)), long(r.below(4))}));
 				switch (r.below(3)) {
@@ -516,6 +542,7 @@ static Plan plan_C15(Rng& r, const std::string&) {
 			TA W = gen_ta(r, pool, o); int a = g.load(W, 0);
 			g.push(mk(c, "et_witness", {a}), 0);
 			if (r.chance(1, 5)) { g.push(mk(c, "et_twist", {a, long(r.below(100000)), long(r.below(4))})); g.push(mk(c, "et_witness", {a}), 0); }      // the same object asked again after it got another value
+			if (r.chance(1, 5) && W.states().size() <= 8) { int x = g.derived(a, W, pool); g.push(mk(c, "et_witness", {x}), 0); }      // the witness of a RESULT
 			if (r.chance(1, 6)) g.push(cli_step(r, c, 0, 4, mdl::to_lit(W), ""));      // vata witness
 			if (r.chance(1, 4)) g.mutate_ops(1, pool);
 		}
